@@ -73,6 +73,47 @@ PROPS["C11"] = {
     "level_note": "As C01.",
 }
 
+_SUPPA_RULE = ("suppa-runs: the REAL suppapitnarm.Explorer (both coolants) over the REAL catchment model (shipped + generated datasets, no limit and a limit on each of the six variables), driven iteration by iteration "
+    "(TryRandomChange + CoolDown as the annealer does) with three scripted random sources installed after Initialise(): the candidate model's action RNG, the coolant's uniform draw (incl. u = 0 and u = 1), the archive's return-to-base pick; "
+    "return-to-base parameters: initial step 1..50, minimum 1..10, factor in {0, .5, .9, .95, 1}; temperatures 1e-3..1e6, cooling factors {1, .999, .95, .5}. "
+    "The Lean explorer model composed with the Lean catchment model replays every iteration from the recorded choices; compared per iteration: archive verdict, desirability, moved, forced, returned, acceptance probability (relative 1e-9), countdown, last-returned iteration, iteration counter, current action set and its six totals, archive length and order-sensitive content hash; temperature bit-exact after every CoolDown. "
+    "Direct checks on the implementation per iteration: desirability follows the archive verdict, Metropolis rule against an independently computed probability, forced iff accepted-undesirable, current = candidate or unchanged, return-to-base lands on an archive member, live archive pairwise non-dominated and duplicate-free, (with a limit) current state and every archive member within the limit; at the end every archive member's vector is re-evaluated on a fresh model. "
+    "One evaluation = one protocol line; distinct non-trivial = distinct (current set, verdict, moved, returned, archive size).")
+PROPS["C06"] = {
+    "suites": [{"name": "suppa-runs", "driver": "suppa", "shards": 12, "quick_shards": 2}],
+    "rule": _SUPPA_RULE,
+    "trusted": ["binary64 *, math.Max, uint64(x), > agree with the real operations on the values that occur (the driver runs the model on Lean Float = the same IEEE binary64; math.Exp vs libm exp may differ in the last ulp: probabilities compared with relative 1e-9 and draws within 1e-9 of p are discarded)",
+                "the optimised model is abstract in the theorems (ModelOps); the correspondence instantiates it with the catchment model"],
+    "assumptions": ["initial return-to-base step >= 1 and minimum rate >= 1 (premise of the property; zero_countdown_wraps shows the 2^64 wrap otherwise)"],
+    "level_text": "Unbounded proof about a transcription of TryRandomChange generic in the arithmetic and in the optimised model: desirable candidates move with certainty and nothing is forced; otherwise moved iff acceptance probability > draw, and then exactly the forced store happens; not moved => solution set and current solution unchanged; a return-to-base replaces the current solution by the picked member; probability formulas (product / mean) and range [0,1] over the reals; returns_recurrence: from any countdown c >= 1 the first return happens at exactly the c-th iteration and the schedule restarts with countdown floor(max(min, step*factor)) (induction on c, BitVec 64 countdown), intervals never below the minimum. Tied to the real explorer by replaying full runs over the real catchment model with scripted randomness.",
+    "level_note": "Trusted: Lean kernel, real-vs-binary64 abstraction, harness/driver; see trusted_base.",
+}
+PROPS["C05"]["suites"].append({"name": "suppa-runs", "driver": "suppa", "shards": 12, "quick_shards": 2})
+PROPS["C05"]["rule"] += " " + _SUPPA_RULE
+
+PROPS["C04"] = {
+        "suites": [{"name": "kirk-script"}],
+        "rule": "kirk-script suite: the real kirkpatrick.Explorer driven (a) over a scripted model.Model (scripted objective change: +-0, 5e-324..1e-30, 1e30..MaxFloat64, NaN/Inf, |change|/T log-uniform in [1e-6,50] and at the exp underflow threshold; scripted validity, 15% invalid) with a scripted math/rand.Source (u = 0, u = 1, masked high bits, u a few grid steps of 1/(2^53-1) either side of p, uniform), both directions plus the unset direction, temperatures 5e-324..MaxFloat64, +Inf and 0, sequences of 20-120 (and 3000-10000) TryRandomChange/CoolDown calls, and (b) over the real catchment model (six objectives, with and without a cost limit) with scripted draws. one evaluation = one TryRandomChange or CoolDown (decision kind, AcceptChange/RevertChange calls, draws consumed, reported change, event sequence, draw value and objective value compared bit-exactly with the Float model; acceptance probability to 1e-9 relative; validity-first / improving-accepts / accepted <-> p > u / p in [0,1] / objective update also evaluated directly on the implementation). Draws within 1e-9 of p are decided by the direct check only (the model follows Go's verdict there; counted as near-draw). distinct = distinct (direction, temperature, protocol line); non-trivial = a valid proposal (decided by the sign of the change or by the draw).",
+        "trusted": ["the theorems read the arithmetic in an ordered field (exp abstract; Real.exp for the range); the driver runs the same definitions with IEEE binary64 (Lean Float: + - * / abs and comparisons are the hardware's, as Go's); that binary64 comparisons order finite values as the reals do is assumed; Go math.Exp and libm exp may differ in the last place: probabilities are compared to 1e-9 relative and draws within 1e-9 of p are not decided by the model",
+                    "the scripted model.Model and math/rand.Source of the harness (harness/cmd/suite_kirk.go); objective-update over real models rests on the model being lawful (C02/C01), checked directly on the catchment runs"],
+        "assumptions": ["positive temperature (T = 0 and T = +Inf are run through the Float model for correspondence only; nothing is claimed there)",
+                        "optimisation direction configured (SetParameters called): with the zero-value direction the explorer reports a stale change; shown by an example in Properties/C04.lean",
+                        "objective_update: the model driven is lawful (accept adds the reported change, revert restores the value)"],
+        "level_text": "Unbounded proof: invalid_reverts, improving_accepts (both directions), otherwise_iff (accepted <-> exp(-|change|/T) > u, change = 0 included), objective_update/objective_final by induction over arbitrarily long sequences of proposals and cool-downs for every lawful model, prob_range over the reals with Real.exp, unitary_range for the draw; all about a model that transcribes AcceptOrRevertChange / changeTriedIsDesirable / DecideIfAcceptable / Float64Unitary, tied to the Go code by a differential run of the real explorer with scripted model and scripted random source on every check.",
+        "level_note": "Trusted: Lean kernel, IEEE-vs-field reading of the arithmetic (exp to 1e-9, draws within 1e-9 of p decided on the Go side only), harness/driver. T <= 0 and the unset direction are outside the property.",
+    }
+PROPS["C07"] = {
+        "suites": [{"name": "anneal-trace"}],
+        "rule": "anneal-trace suite: the real SimpleAnnealer and ElapsedTimeTrackingAnnealer with an explorer that records Initialise/TryRandomChange/CoolDown/TearDown and can panic (error or non-error value) in Initialise or in TryRandomChange/CoolDown of a chosen iteration, wrapped around crem's null explorer, the Kirkpatrick explorer over the dumb model and the Suppapitnarm explorer over the multi-objective dumb model with either coolant; budgets 0..50 and 1000 (systematic) plus random; cooling factors 0, 0.5, 0.999, 1 and random in [0,1]; starting temperatures 0, 1e-300..1e300; 0-4 observers (passive recorders, crem's AnnealingMessageObserver / AnnealingAttributeObserver with Annealing logging on, in any position, IterationCountFilter modulo 1/3/10); explorer events optionally forwarded through the annealer as scenario.Runner wires them; optional re-runs of the same annealer object. one evaluation = one Anneal() call (merged trace of explorer calls and events of the first recorder, outcome, final counter, final temperature; temperatures bit-exact) or one observer's received trace. Event order, iteration numbers, exact budget, one cooling per iteration, teardown/re-panic and no finish event after a panic are also evaluated directly per observer. A recorder placed behind one of crem's logging observers is compared with the model on event kinds and temperatures and checked directly for the iteration number (finding D21). distinct = distinct run configurations; non-trivial = budget > 0.",
+        "trusted": ["temperatures: the driver repeats the Go coolants' sequential multiplication in IEEE binary64 (bit-exact comparison); the closed form T0*a^k and monotonicity are theorems over a monoid / ordered semiring",
+                    "the recording/panicking explorer wrapper and the recording observers of the harness (harness/cmd/suite_anneal.go)"],
+        "assumptions": ["a run starts with currentIteration = 0 (every run crem starts anneals a fresh clone; a second Anneal() on the same object performs exactly one iteration: theorem rerun_single_iteration, covered by the correspondence)",
+                        "0 <= T0 and 0 <= a <= 1 for 'never increases' (the parameter validators enforce both)",
+                        "observers do not modify the events they are handed (the model's events are immutable values; crem's own AnnealingMessageObserver violates this: signature anneal:observer-event-aliasing)"],
+        "level_text": "Unbounded proof: trace_shape, zero_budget, exact_budget, panic_trace (+ CoolDown / Initialise / beyond-budget variants), every_observer_same_trace for any number of observers, temperature_k (T0*a^k in any monoid), temperature_antitone and trace_temperatures_antitone (ordered semiring), for every budget N, about a model that transcribes Anneal() with its two defers, initialDoneValue, checkIfDone and CoolDown; tied to the Go code by a differential run of both real annealers over the null, Kirkpatrick and both Suppapitnarm explorers on every check.",
+        "level_note": "Trusted: Lean kernel, harness/driver, binary64 multiplication for the bit-exact temperatures. The model assumes observers leave events untouched; the check reports where crem's message observer does not (D21).",
+    }
+
 # properties not (yet) claimed, with the reason; kept current as checks are added
 NOT_APPLICABLE = {
 }
